@@ -217,6 +217,20 @@ class Model:
         return arr(tuple(letter[ch] for ch in out)), contracted
 
     @staticmethod
+    def tile(arrays, p):
+        L = labels_of(arrays[0])
+        reps = p.get("reps")
+        if isinstance(reps, int):
+            reps = (reps,)
+        if not isinstance(reps, (tuple, list)) or not all(isinstance(r, int) for r in reps):
+            raise EvalRaise("TypeError")
+        reps = tuple(reps)
+        if len(reps) < len(L):
+            reps = (1,) * (len(L) - len(reps)) + reps
+        out = ("1",) * (len(reps) - len(L)) + L
+        return arr(out), {l for l, r in zip(out, reps) if r != 1 and l != "1"} | ({"<new>"} if any(r != 1 and l == "1" for l, r in zip(out, reps)) else set())
+
+    @staticmethod
     def trailing(arrays, p):
         """acts on the last k axes of the operand (k: fixed, or every axis of one example); the layout is kept"""
         L = labels_of(arrays[0])
@@ -343,7 +357,7 @@ class Model:
         return arr(L[:pos] + ("N",) + L[pos:]), set()
 
 
-KINDS: Dict[str, Callable[..., Any]] = {k: getattr(Model, k) for k in ("elementwise", "broadcast", "einsum", "attention", "matmul", "dot", "whole", "outer", "diag", "second", "trailing", "along", "preserve", "reduce", "size", "insert", "stack", "concat", "squeeze", "transpose", "split", "unstack", "take", "diagonal", "linspace")}
+KINDS: Dict[str, Callable[..., Any]] = {k: getattr(Model, k) for k in ("elementwise", "broadcast", "tile", "einsum", "attention", "matmul", "dot", "whole", "outer", "diag", "second", "trailing", "along", "preserve", "reduce", "size", "insert", "stack", "concat", "squeeze", "transpose", "split", "unstack", "take", "diagonal", "linspace")}
 
 
 class Spec:
@@ -521,6 +535,12 @@ class BatchEval(Evaluator):
                 if shp.count(-1) == 1 and k == len(shp) - 1 and tuple(shp[:k]) == tuple(sizes[:k]):
                     return arr(L[:k] + (f"flat({','.join(L[k:])})",))
                 raise Unsupported("reshape with -1 that is not a trailing flatten")
+            # only unit axes are inserted / dropped: the non-unit extents keep their order
+            nz_new = [s for s in shp if s != 1]
+            nz_old = [(l, s) for l, s in zip(L, sizes) if s != 1]
+            if nz_new == [s for _l, s in nz_old] and len(set(nz_new)) == len(nz_new):
+                it = iter(nz_old)
+                return arr(tuple("1" if s == 1 else next(it)[0] for s in shp))
             # merge of the two leading axes / its inverse
             if len(L) >= 2 and len(shp) == len(L) - 1 and shp[0] == sizes[0] * sizes[1] and tuple(shp[1:]) == tuple(sizes[2:]):
                 return arr((f"merge({L[0]},{L[1]})",) + L[2:])
@@ -633,6 +653,8 @@ def run_rule(idx: Index, fi: FuncInfo, spec: Spec, example_labels: List[Optional
     except AxisViolation as v:
         return "VIOLATION", str(v)
     except EvalRaise as r:
+        if getattr(r, "explicit", False):
+            return "REJECTED", f"the rule rejects the case with an explicit `raise {r.name}` (loud, not a wrong model)"
         return "VIOLATION", f"the rule raises {r.name} on a call that is valid per example"
     except Unsupported as u:
         return "UNRESOLVED", f"not evaluable: {u}"
